@@ -25,10 +25,10 @@ REQUIRED_BUCKETS = ['order:use-before-definition', 'order:definition-before-use'
                     'step:string', 'step:file', 'step:include', 'macro:scope-like-name', 'macro:evaluated-reference', 'macro:nested-macro', 'macro:literal',
                     'call:between-steps', 'call:unbound-macro-raises', 'const:unique-suffix', 'const:full-name', 'const:ambiguous', 'const:none-falls-to-macro',
                     'const:identity-in-container', 'const:invalid-name', 'const:duplicate', 'finalize:ok', 'finalize:unbound', 'finalize:unevaluated',
-                    'macro:used-twice-in-one-value']
+                    'macro:used-twice-in-one-value', 'const:defined-between-parses', 'const:name-became-constant-after-use-as-macro', 'finalize:unbound-with-bound-prefix-macro']
 ORACLE_COUNTERS = ['oracle_evals', 'consumer_calls', 'constant_lookups', 'finalize_checks']
 _S = {}
-MACROS = ['m0', 'm1', 'a/m2', 'a/b/m3', 'M0']
+MACROS = ['m0', 'm1', 'a/m2', 'a/b/m3', 'M0', 'a', 'a/b', 'LATEK']
 
 
 class Sentinel:
@@ -146,8 +146,28 @@ def iter_cases(ctx, rng, n):
           stmts.append(['bind', rng.choice(['p', 'q']), gen_tree(rng, rng.choice([0, 1, 2]), pool, spell)])
       kind = rng.choice(['string', 'string', 'file', 'include'])
       steps.append({'kind': kind, 'stmts': stmts, 'split': rng.randrange(0, len(stmts) + 1), 'call': rng.random() < 0.7})
-    yield {'consts': consts, 'steps': steps, 'finalize': rng.random() < 0.6, 'unevaluated': rng.random() < 0.15,
+    late = []
+    for si in range(1, len(steps)):
+      if rng.random() < 0.5:
+        cands = ['q.LATEK'] + ['w2.' + c for c in consts]
+        late.append([si, rng.choice(cands)])
+    yield {'consts': consts, 'late_consts': late, 'steps': steps, 'finalize': rng.random() < 0.6, 'unevaluated': rng.random() < 0.15,
            'bad_const': rng.choice([None, 'invalid', 'duplicate']), 'ambiguous_probe': rng.random() < 0.5}
+
+
+def freeze(t, consts):
+  """What a value tree means at the moment it is parsed: whether %name is a constant is decided then (macros stay late-bound)."""
+  k = t[0]
+  if k in ('const', 'use'):
+    r = models.resolve_suffix(consts, t[1])
+    if len(r) == 1:
+      return ['constr', r[0]]
+    return ['use', t[1]]
+  if k == 'list':
+    return ['list', [freeze(x, consts) for x in t[1]]]
+  if k == 'dict':
+    return ['dict', [[a, freeze(b, consts)] for a, b in t[1]]]
+  return t
 
 
 def has_cycle(table):
@@ -168,6 +188,8 @@ def model_value(t, table, consts, sentinels, calls, depth=0):
     return c04.lit_shape(t[1])
   if k == 'use':
     return model_macro(t[1], table, calls, depth)
+  if k == 'constr':
+    return ('const', t[1])
   if k == 'const':
     r = models.resolve_suffix(consts, t[1])
     return ('const', r[0])
@@ -176,10 +198,20 @@ def model_value(t, table, consts, sentinels, calls, depth=0):
   return ('dict', tuple((c04.lit_shape(a), model_value(b, table, consts, sentinels, calls, depth)) for a, b in t[1]))
 
 
+class Grey(Exception):
+  pass
+
+
 def model_macro(m, table, calls, depth):
+  if m not in table and any(m.startswith(t + '/') for t in table):
+    # the macro's name is the scope of gin.macro: an unbound `a/b` evaluated while `a` is bound inherits a's value through scope
+    # layering. The statement says nothing about it (only finalize must reject the unbound name) -> not constrained.
+    raise Grey(m)
   if m not in table or depth > 8:
     raise KeyError(m)
   v = table[m]
+  if v[0] == 'constr':
+    return ('const', v[1])
   if v[0] == 'lit':
     return c04.lit_shape(v[1])
   if v[0] == 'prov':
@@ -239,6 +271,12 @@ def run_case(ctx, case):
   defined_in_step = {}
   used_before_def = set()
   for si, step in enumerate(case['steps']):
+    for at, name in case.get('late_consts', []):
+      if at == si and name not in consts and not any(c.endswith('.' + name) for c in consts):
+        sentinels[name] = Sentinel(name)
+        gin.constant(name, sentinels[name])
+        consts.add(name)
+        ctx.bucket('const:defined-between-parses')
     # ---- render the step
     lines = []
     for st in step['stmts']:
@@ -282,15 +320,20 @@ def run_case(ctx, case):
       if st[0] == 'def':
         if st[1] in table:
           ctx.bucket('order:redefinition-later-step' if defined_in_step.get(st[1]) != si else 'order:redefinition-same-step')
-        table[st[1]] = st[2]
+        mv = st[2]
+        if mv[0] == 'macro' and len(models.resolve_suffix(consts, mv[1])) == 1:
+          mv = ['constr', models.resolve_suffix(consts, mv[1])[0]]   # `m = %NAME` where NAME is (by now) a constant
+        table[st[1]] = mv
         defined_in_step[st[1]] = si
         pattern.append('D')
         if '/' in st[1]:
           ctx.bucket('macro:scope-like-name')
-        ctx.bucket({'lit': 'macro:literal', 'prov': 'macro:evaluated-reference', 'macro': 'macro:nested-macro'}[st[2][0]])
+        ctx.bucket({'lit': 'macro:literal', 'prov': 'macro:evaluated-reference', 'macro': 'macro:nested-macro', 'constr': 'macro:literal'}[mv[0]])
       else:
-        store[st[1]] = st[2]
-        us = uses(st[2], [])
+        store[st[1]] = freeze(st[2], consts)
+        us = uses(store[st[1]], [])
+        if uses(st[2], []) != us:
+          ctx.bucket('const:name-became-constant-after-use-as-macro')
         for u in us:
           if u not in table:
             used_before_def.add(u)
@@ -328,6 +371,8 @@ def run_case(ctx, case):
       if v[0] == 'macro':
         referenced.append(v[1])
     unbound = sorted({m for m in referenced if m not in table})
+    if any(any(m.startswith(t + '/') for t in table) for m in unbound):
+      ctx.bucket('finalize:unbound-with-bound-prefix-macro')
     if case['unevaluated']:
       gin.parse_config('c5cons.q = @m0/gin.macro')
       ctx.bucket('finalize:unevaluated')
@@ -386,6 +431,13 @@ def do_call(ctx, gin, cons, table, store, consts, sentinels):
       exp[prm] = model_value(t, table, consts, sentinels, calls)
     except KeyError:
       unbound = True
+    except Grey:
+      ctx.count('grey_unbound_macro_with_bound_prefix')
+      try:
+        cons.conf()
+      except Exception:  # pylint: disable=broad-except
+        pass
+      return
   mark = probes.RECORDER.mark()
   exc = None
   try:
